@@ -24,6 +24,8 @@ func init() {
 }
 
 func runC13(c *Ctx) {
+	c.Rule("C13.R11", "no address of a (go 1.18) loop variable escapes its iteration in pkg/mtls", 1)
+	defer loopVarEscapes(c, "C13.R11", []string{"pkg/mtls"})
 	c.Rule("C13.R10", "frozen lockset: an SDS provider's secret and its set of TLS contexts are only touched under the provider mutex", 8)
 	defer runLockTables(c, "C13", nil)
 	c.Assumptions = append(c.Assumptions, "pkg/mtls/crypto/tls (forked crypto/tls) enforces ClientAuth, RootCAs/ClientCAs, MinVersion/MaxVersion and VerifyPeerCertificate as the standard library documents")
